@@ -77,6 +77,17 @@ class M13(Machine):
                         ]))]))
                     except Exception:   # noqa: BLE001
                         pass
+            elif between and i and between[0] == "busy":
+                # a busy process: another dialect's encoder works through a
+                # few hundred other strings, then through this very module
+                try:
+                    other = make_encoder(between[1], {})
+                    other.encode(PVLModule(
+                        [("K%d" % j, "V%d+%d" % (j, self.opi))
+                         for j in range(300)]))
+                    other.encode(real)
+                except Exception:   # noqa: BLE001
+                    pass
             elif between and i:
                 # somebody else builds (and uses) another encoder in between
                 try:
@@ -146,6 +157,9 @@ class Gen13(HistGen):
              "line one\nline two", "x" * 50, "NULL", "12", "2001-01-01",
              "thirty-seven characters, not an ident", "MARS EXPRESS",
              "a symbol of just about forty characters."]
+    # spelled like reserved words; written unquoted by one dialect only
+    TRICKY = ["END", "End_Group", "object", "BEGIN_GROUP", "end", "A+B",
+              "dn+offset", "+x", "12:30:15-08", "x#y", "a&b"]
     interleaved = False
 
     def __init__(self, rng, machine):
@@ -160,6 +174,8 @@ class Gen13(HistGen):
         if x < 0.35:
             return self.unique_int()
         if x < 0.55:
+            if r.random() < 0.3:
+                return {"s": r.choice(self.TRICKY)}
             return {"s": r.choice(self.WORDS)}
         if x < 0.63:
             return {"f": r.choice([0.5, -1.25, 1e10, 3.0])}
@@ -223,6 +239,10 @@ class Gen13(HistGen):
             op.append([r.choice(["PVL", "ODL", "PDS3", "ISIS"]),
                        {"width": r.choice([20, 40, 60, 79, 80, 81, 120]),
                         "indent": r.choice([0, 2, 4])}])
+            self.interleaved = True
+        elif x < 0.55:
+            op.append(["busy", {"PVL": "ISIS", "ISIS": "PVL"}.get(
+                enc, r.choice(["PVL", "ODL", "ISIS"]))])
             self.interleaved = True
         return op
 
